@@ -80,6 +80,8 @@ def check(case, ctx):
     # sintl
     s_ref = O.stl(Gs, h)
     s = mod.sintl(cell, case["hkl"])
+    ctx.later("%s.sintl" % m, mod.sintl, list(cell_values), list(case["hkl"]))
+    ctx.later("%s.form_b_mat" % m, mod.form_b_mat, list(cell_values))
     ctx.near("sintl", abs(s / s_ref - 1), TOL, "sintl/closed-formula", "%s: sintl %r != %r (cell %r hkl %r)" % (m, s, s_ref, cell, case["hkl"]))
     sB = np.linalg.norm(B @ h) / (2 * f)
     ctx.near("|Bh|/2f", abs(sB / s_ref - 1), TOL, "sintl/Bh", "%s: |B.hkl|/(2f) %r != %r" % (m, sB, s_ref))
